@@ -67,6 +67,28 @@ CLAIMED = {
             "call by call on identical inputs (every entity, code pairs as C02 quick): equality to rounding, diag(full), |delta| <= 100(rtol+atol); options applied where they do not apply must be no-ops.",
             "Tensor rule verified identical to the default rule for degrees 0..30; default-option kernels themselves are checked against R in C01/C02.",
             "DESIGN.md §4 C10"),
+    "C06": ("oracle-engine", "exhaustive enumeration of all integral sequences up to a length over a (type, id-set, rule) alphabet against a dispatch model",
+            "All ordered sequences of <= 2 (quick: reduced pair alphabet) / <= 3 integrals over {dx, ds, dS, dP} x {everywhere, 0, 2, (0,2)} x {auto, degree 2} on a triangle and on a prism, "
+            "each integral carrying the weight 2^k; for every (type, id) the listed kernels applied in sequence must add exactly R's sum of the declared integrands; all descriptor fields "
+            "(offsets, ids, counts, shapes, hashes, cell-type tags) are recomputed from the form; several forms per module.",
+            "Dispatch is judged through the documented lookup (offset range, id, cell-type tag); name maps are covered by C20.",
+            "DESIGN.md §4 C06"),
+    "C11": ("oracle-engine", "exhaustive enumeration of the finite space cell x degree 0..30 x scheme with every monomial, and of rule pairs, against closed forms and R",
+            "Per (cell, degree, scheme, integral type) a functional whose Constant vector selects every monomial of degree q and q-1 in turn is compiled; kernel values on the reference cell "
+            "and an affine image (every facet for ds) must equal the exact integrals; the weights table in the captured AST must be the basix rule, itself checked against all monomials <= q in closed form; "
+            "ordered pairs of degrees on one subdomain, metadata-free polynomial forms vs degree+4, vertex scheme and quadrature elements alone and beside other rules are compared with R.",
+            "Affine-image truth uses basix rules of higher degree that are anchored on closed forms in the same run; quick tier limits 3D degrees (stated in evidence).",
+            "DESIGN.md §4 C11"),
+    "C16": ("parsers", "exhaustive enumeration of all AST trees of depth <= 2 plus all depth-3 operator chains, formatted and parsed back (pycparser / Python ast)",
+            "Every expression tree of depth <= 2 over all node kinds in every operand position and every depth-3 chain is formatted by the C formatter (float64, complex128) and the numba "
+            "formatter, parsed back under the target grammar and compared structurally with the L tree; statement kinds and whole captured kernel bodies likewise; a literal grid must read back within 1 ulp.",
+            "pycparser stands for the C grammar and ast.parse for Python; function names need only be the table entry or the bare name.",
+            "DESIGN.md §4 C16, §2.4"),
+    "C17": ("lvm", "exhaustive enumeration of operator x operand-kind pairs and index shapes; optimiser passes on/off compared on the compiled kernels over the corpus",
+            "All pairs of operand kinds for every overloaded operator (incl. reflected forms, near-0/near-1 floats, ints) are evaluated against the unsimplified node under C semantics; float_product on all "
+            "subsets; MultiIndex flattening for all small shapes and index values; every corpus kernel is compiled with the optimiser passes enabled and with each/all disabled and must agree on every entity/code pair.",
+            "Folding compared exactly on three symbol environments; optimiser variants compared to 1e-11 (floating-point reassociation).",
+            "DESIGN.md §4 C17"),
 }
 
 NOT_YET = "check not built yet in this session (planned, see DESIGN.md §8); not claimed until its command exists"
@@ -115,6 +137,8 @@ def main():
 
 NA = {}
 ENGINES = [
+    {"name": "parsers", "path": "mc/cparse.py", "serves_properties": ["C16", "C18"],
+     "kind_free_text": "pycparser / Python-ast based parse-back of formatted text into a normal form shared with the L-AST"},
     {"name": "lvm", "path": "mc/lvm.py", "serves_properties": ["C07", "C08", "C17"],
      "kind_free_text": "capture of the L-AST actually formatted + interpreter (AST -> Python) with per-access tracing; bound to the compiled C kernel by conformance runs"},
     {"name": "lvm+schedules", "path": "mc/checks/C07.py", "serves_properties": ["C07"],
